@@ -250,6 +250,280 @@ def dump_descr(cls, src, alias, items):
             'filter_noteq': isinstance(cm.ops[0], ast.NotEq), 'flag_positive': flag_pos}
 
 
+# ---------------------------------------------------------------------------------------------- get / save / load
+LIBEXC = {'TypeError': 'LTypeError', 'SizeError': 'LSizeError', 'ValueError': 'LValueError',
+          'ArgumentError': 'LArgumentError', 'BuildError': 'LBuildError'}
+CMP = {ast.Eq: 'CEq', ast.NotEq: 'CNe', ast.Lt: 'CLt', ast.LtE: 'CLe', ast.Gt: 'CGt', ast.GtE: 'CGe'}
+CMP_SWAP = {'CEq': 'CEq', 'CNe': 'CNe', 'CLt': 'CGt', 'CLe': 'CGe', 'CGt': 'CLt', 'CGe': 'CLe'}
+
+
+def module_alias(tree, module, default=None):
+    """name under which `import <module> as X` (or `from pkg import last`) makes the module visible"""
+    pkg, _, last = module.rpartition('.')
+    for n in tree.body:
+        if isinstance(n, ast.Import):
+            for a in n.names:
+                if a.name == module and (a.asname or '.' not in module):
+                    return a.asname or module
+        if isinstance(n, ast.ImportFrom) and pkg and n.module == pkg and n.level == 0:
+            for a in n.names:
+                if a.name == last:
+                    return a.asname or last
+    if default is not None:
+        return default
+    raise TranslationError(REL, tree, 'import of %s not found' % module)
+
+
+def _is_name(node, name):
+    return isinstance(node, ast.Name) and node.id == name
+
+
+def _mod_call(node, alias, fname):
+    """alias.fname(...)"""
+    return (isinstance(node, ast.Call) and isinstance(node.func, ast.Attribute) and node.func.attr == fname
+            and _is_name(node.func.value, alias))
+
+
+def _getattr_self(node, key):
+    return _call(node, 'getattr', 2) and _is_name(node.args[0], 'self') and _is_name(node.args[1], key)
+
+
+def _message(node, index, arr):
+    """a string literal or an f-string over {len(index)} / {<arr>.ndim} -> list of mpart"""
+    if isinstance(node, ast.Constant) and isinstance(node.value, str):
+        return ['MStr %s' % coq_str(node.value)]
+    if isinstance(node, ast.JoinedStr):
+        out = []
+        for v in node.values:
+            if isinstance(v, ast.Constant) and isinstance(v.value, str):
+                out.append('MStr %s' % coq_str(v.value))
+            elif isinstance(v, ast.FormattedValue) and v.conversion == -1 and v.format_spec is None:
+                if _call(v.value, 'len', 1) and _is_name(v.value.args[0], index):
+                    out.append('MLenIndex')
+                elif arr is not None and isinstance(v.value, ast.Attribute) and v.value.attr == 'ndim' and _is_name(v.value.value, arr):
+                    out.append('MNdim')
+                else:
+                    raise TranslationError(REL, v, 'unrecognised value `%s` in the message' % ast.unparse(v.value))
+            else:
+                raise TranslationError(REL, v, 'unrecognised f-string piece')
+        return out
+    raise TranslationError(REL, node, 'the exception message must be a string literal or an f-string')
+
+
+def _raise_lib(stmts, ealias, index, arr):
+    """[raise <ealias>.<Class>(<message>)] -> (class, message parts)"""
+    if len(stmts) != 1 or not isinstance(stmts[0], ast.Raise) or stmts[0].cause is not None:
+        raise TranslationError(REL, stmts[0] if stmts else None, 'a guard must consist of a single `raise`')
+    ex = stmts[0].exc
+    if not (isinstance(ex, ast.Call) and isinstance(ex.func, ast.Attribute) and _is_name(ex.func.value, ealias)
+            and len(ex.args) == 1 and not ex.keywords):
+        raise TranslationError(REL, stmts[0], 'expected `raise %s.<Error>(<message>)`' % ealias)
+    if ex.func.attr not in LIBEXC:
+        raise TranslationError(REL, stmts[0], 'unknown library exception `%s`' % ex.func.attr)
+    return LIBEXC[ex.func.attr], _message(ex.args[0], index, arr)
+
+
+def _gterm(node, index, arr):
+    if _call(node, 'len', 1) and _is_name(node.args[0], index):
+        return 'TLenIndex'
+    if isinstance(node, ast.Attribute) and node.attr == 'ndim' and _is_name(node.value, arr):
+        return 'TNdim (0)'
+    if isinstance(node, ast.BinOp) and isinstance(node.op, (ast.Sub, ast.Add)) and isinstance(node.right, ast.Constant) \
+            and type(node.right.value) is int and isinstance(node.left, ast.Attribute) and node.left.attr == 'ndim' \
+            and _is_name(node.left.value, arr):
+        c = node.right.value if isinstance(node.op, ast.Add) else -node.right.value
+        return 'TNdim (%d)' % c
+    raise TranslationError(REL, node, 'unrecognised term `%s` in the size test' % ast.unparse(node))
+
+
+def _asarray(node, npalias, key, want_object):
+    """np.asarray(getattr(self, key)[, dtype=object])"""
+    if not (_mod_call(node, npalias, 'asarray') and len(node.args) == 1 and _getattr_self(node.args[0], key)):
+        return False
+    if want_object:
+        return len(node.keywords) == 1 and node.keywords[0].arg == 'dtype' and _is_name(node.keywords[0].value, 'object')
+    return not node.keywords
+
+
+def _assign_name(s):
+    if isinstance(s, ast.Assign) and len(s.targets) == 1 and isinstance(s.targets[0], ast.Name):
+        return s.targets[0].id
+    return None
+
+
+def get_descr(cls, tree, src, items):
+    fn = find_func(cls, 'get')
+    if fn is None or fn.decorator_list:
+        raise TranslationError(REL, cls, 'History.get not found (or decorated)')
+    _args(fn, ['self', 'key', 'index'], fn)
+    key, index = 'key', 'index'
+    ealias = module_alias(tree, 'opytimizer.utils.exception')
+    npalias = module_alias(tree, 'numpy')
+    body = body_wo_doc(fn)
+    out = []
+    arr = None          # the local currently holding the array
+    stage = 0           # 0 nothing built, 1 array, 2 sliced, 3 stacked, 4 returned
+    for s in body:
+        if stage == 4:
+            raise TranslationError(REL, s, 'statement after the return')
+        if isinstance(s, ast.If):
+            if s.orelse:
+                raise TranslationError(REL, s, 'a guard must not have an else branch')
+            t = s.test
+            if isinstance(t, ast.UnaryOp) and isinstance(t.op, ast.Not) and _call(t.operand, 'isinstance', 2):
+                a0, a1 = t.operand.args
+                if not (_is_name(a0, index) and _is_name(a1, 'tuple')):
+                    raise TranslationError(REL, s, 'expected `not isinstance(%s, tuple)`' % index)
+                exc, msg = _raise_lib(s.body, ealias, index, arr)
+                out.append('GGuardNotTuple %s [%s]' % (exc, '; '.join(msg)))
+            elif isinstance(t, ast.Compare) and len(t.ops) == 1 and type(t.ops[0]) in CMP and stage == 1:
+                lt, rt, op = _gterm(t.left, index, arr), _gterm(t.comparators[0], index, arr), CMP[type(t.ops[0])]
+                if lt == 'TLenIndex' and rt != 'TLenIndex':      # canonical orientation: the array's term on the left
+                    lt, rt, op = rt, lt, CMP_SWAP[op]
+                exc, msg = _raise_lib(s.body, ealias, index, arr)
+                out.append('GGuardSize (%s) %s %s %s [%s]' % (lt, op, rt, exc, '; '.join(msg)))
+            else:
+                raise TranslationError(REL, s, 'unrecognised guard `%s`' % ast.unparse(t))
+            items.append({'file': REL, 'line': s.lineno, 'text': 'if %s: %s' % (src_of(src, t), src_of(src, s.body[0]))})
+        elif isinstance(s, ast.Try):
+            if stage != 0 or s.orelse or s.finalbody or len(s.handlers) != 1 or len(s.body) != 1 or len(s.handlers[0].body) != 1:
+                raise TranslationError(REL, s, 'expected try: <a> = np.asarray(...) except <E>: <a> = np.asarray(..., dtype=object)')
+            h = s.handlers[0]
+            v1, v2 = _assign_name(s.body[0]), _assign_name(h.body[0])
+            if h.name is not None or not isinstance(h.type, ast.Name) or v1 is None or v1 != v2 or v1 in (key, index, 'self'):
+                raise TranslationError(REL, s, 'unrecognised except clause / assignment targets')
+            if not _asarray(s.body[0].value, npalias, key, False):
+                raise TranslationError(REL, s.body[0], 'expected %s.asarray(getattr(self, %s))' % (npalias, key))
+            fb = _asarray(h.body[0].value, npalias, key, True)
+            if not fb and not _asarray(h.body[0].value, npalias, key, False):
+                raise TranslationError(REL, h.body[0], 'expected %s.asarray(getattr(self, %s), dtype=object)' % (npalias, key))
+            out.append('GAsArray %s %s' % (coq_str(h.type.id), coq_bool(fb)))
+            items.append({'file': REL, 'line': s.lineno, 'text': 'try: %s except %s: %s' % (src_of(src, s.body[0]), h.type.id, src_of(src, h.body[0]))})
+            arr, stage = v1, 1
+        elif isinstance(s, (ast.Assign, ast.Return)):
+            if isinstance(s, ast.Assign):
+                tgt = _assign_name(s)
+                if tgt is None or tgt in (key, index, 'self'):
+                    raise TranslationError(REL, s, 'unrecognised assignment target')
+            val = s.value
+            if val is None:
+                raise TranslationError(REL, s, 'bare return')
+            emitted = False
+            if stage == 1 and isinstance(val, ast.Subscript) and _is_name(val.value, arr):
+                ops, cur = [], val.slice
+                while isinstance(cur, ast.BinOp) and isinstance(cur.op, ast.Add):
+                    ops.insert(0, cur.right)
+                    cur = cur.left
+                ops.insert(0, cur)
+                parts = []
+                for o in ops:
+                    if _is_name(o, index):
+                        parts.append('SIndex')
+                    elif isinstance(o, ast.Tuple) and len(o.elts) == 1 and _call(o.elts[0], 'slice', 1) \
+                            and isinstance(o.elts[0].args[0], ast.Constant) and o.elts[0].args[0].value is None:
+                        parts.append('SAll')
+                    else:
+                        raise TranslationError(REL, o, 'unrecognised subscript operand `%s`' % ast.unparse(o))
+                out.append('GSlice [%s]' % '; '.join(parts))
+                stage, emitted = 2, True
+            elif stage == 2 and isinstance(val, ast.Call) and isinstance(val.func, ast.Attribute) and _is_name(val.func.value, npalias) \
+                    and len(val.args) == 1 and not val.keywords and _is_name(val.args[0], arr):
+                out.append('GStack %s' % coq_str(val.func.attr))
+                stage, emitted = 3, True
+            elif stage == 3 and isinstance(s, ast.Return) and _is_name(val, arr):
+                pass
+            elif stage >= 1 and isinstance(s, ast.Assign) and _is_name(val, arr):
+                pass                                     # <new local> = <current local>: a rename, nothing happens
+            else:
+                raise TranslationError(REL, s, 'unrecognised step `%s`' % ast.unparse(s))
+            if emitted:
+                items.append({'file': REL, 'line': s.lineno, 'text': src_of(src, s)})
+            if isinstance(s, ast.Assign):
+                arr = tgt
+            else:
+                if stage != 3:
+                    raise TranslationError(REL, s, 'return before the result is stacked')
+                out.append('GReturn')
+                stage = 4
+        else:
+            raise TranslationError(REL, s, 'unrecognised statement `%s`' % ast.unparse(s).split('\n')[0])
+    return out
+
+
+def _with_open(fn, fname, items, src):
+    """[with open(<fname>, <mode>) as f: body]  -> (mode, f, with-body, statements after the with)"""
+    body = body_wo_doc(fn)
+    if not body or not isinstance(body[0], ast.With) or len(body[0].items) != 1:
+        raise TranslationError(REL, fn, 'expected `with open(%s, <mode>) as <f>:`' % fname)
+    w = body[0]
+    it = w.items[0]
+    c = it.context_expr
+    if not (_call(c, 'open', 2) and _is_name(c.args[0], fname) and isinstance(c.args[1], ast.Constant)
+            and isinstance(c.args[1].value, str) and isinstance(it.optional_vars, ast.Name)):
+        raise TranslationError(REL, w, 'expected `with open(%s, <mode>) as <f>:`' % fname)
+    items.append({'file': REL, 'line': w.lineno, 'text': 'with %s as %s:' % (src_of(src, c), it.optional_vars.id)})
+    return c.args[1].value, it.optional_vars.id, w.body, body[1:]
+
+
+def _dict_of(node):
+    """X.__dict__ or vars(X) -> X"""
+    if isinstance(node, ast.Attribute) and node.attr == '__dict__' and isinstance(node.value, ast.Name):
+        return node.value.id
+    if _call(node, 'vars', 1) and isinstance(node.args[0], ast.Name):
+        return node.args[0].id
+    return None
+
+
+def save_descr(cls, tree, src, items):
+    fn = find_func(cls, 'save')
+    if fn is None or fn.decorator_list:
+        raise TranslationError(REL, cls, 'History.save not found (or decorated)')
+    _args(fn, ['self', 'file_name'], fn)
+    pk = module_alias(tree, 'pickle')
+    mode, f, inner, after = _with_open(fn, 'file_name', items, src)
+    if after or len(inner) != 1 or not isinstance(inner[0], ast.Expr):
+        raise TranslationError(REL, fn, 'save must consist of one pickle.dump inside the with block')
+    c = inner[0].value
+    if not (_mod_call(c, pk, 'dump') and len(c.args) == 2 and not c.keywords and _is_name(c.args[0], 'self') and _is_name(c.args[1], f)):
+        raise TranslationError(REL, inner[0], 'expected %s.dump(self, %s)' % (pk, f))
+    items.append({'file': REL, 'line': inner[0].lineno, 'text': src_of(src, inner[0])})
+    return ['IOOpen %s' % coq_str(mode), 'IOPickleDump OSelf']
+
+
+def load_descr(cls, tree, src, items):
+    fn = find_func(cls, 'load')
+    if fn is None or fn.decorator_list:
+        raise TranslationError(REL, cls, 'History.load not found (or decorated)')
+    _args(fn, ['self', 'file_name'], fn)
+    pk = module_alias(tree, 'pickle')
+    mode, f, inner, after = _with_open(fn, 'file_name', items, src)
+    out = ['IOOpen %s' % coq_str(mode)]
+    loaded = None
+    for s in list(inner) + list(after):      # the update may follow the with block: the file is only needed by pickle.load
+        if loaded is None:
+            v = _assign_name(s)
+            if v is None or v in ('self', 'file_name', f) or not (_mod_call(s.value, pk, 'load') and len(s.value.args) == 1
+                                                                   and not s.value.keywords and _is_name(s.value.args[0], f)):
+                raise TranslationError(REL, s, 'expected <h> = %s.load(%s)' % (pk, f))
+            if s in after:
+                raise TranslationError(REL, s, 'pickle.load outside the with block')
+            loaded = v
+            out.append('IOPickleLoad')
+        else:
+            c = s.value if isinstance(s, ast.Expr) else None
+            if not (isinstance(c, ast.Call) and isinstance(c.func, ast.Attribute) and c.func.attr == 'update'
+                    and len(c.args) == 1 and not c.keywords):
+                raise TranslationError(REL, s, 'expected <a>.__dict__.update(<b>.__dict__)')
+            names = {'self': 'OSelf', loaded: 'OLoaded'}
+            t, sc = _dict_of(c.func.value), _dict_of(c.args[0])
+            if t not in names or sc not in names:
+                raise TranslationError(REL, s, 'expected <a>.__dict__.update(<b>.__dict__) over self / %s' % loaded)
+            out.append('IODictUpdate %s %s' % (names[t], names[sc]))
+        items.append({'file': REL, 'line': s.lineno, 'text': src_of(src, s)})
+    return out
+
+
+
 def generate(repo):
     """-> (coq text, items, errors)."""
     items, errors = [], []
@@ -280,6 +554,26 @@ def generate(repo):
         errors.append({'item': 'history_descr', 'file': ex.file, 'line': ex.line, 'msg': ex.msg})
     except (KeyError, IndexError, AttributeError, SyntaxError, OSError) as ex:
         errors.append({'item': 'history_descr', 'file': REL, 'line': 0, 'msg': 'translator: %r' % ex})
+    # get / save / load: new definitions after the (unchanged) clause table; each item fails on its own
+    try:
+        tree, src = parse(repo, REL)
+        cls = find_class(tree, 'History')
+    except (TranslationError, SyntaxError, OSError) as ex:
+        tree = cls = None
+        errors.append({'item': 'get_descr', 'file': REL, 'line': 0, 'msg': 'translator: %r' % ex})
+    if cls is not None:
+        for item, ty, f in (('get_descr', 'gdescr', get_descr), ('save_descr', 'list iostmt', save_descr),
+                            ('load_descr', 'list iostmt', load_descr)):
+            try:
+                if sum(1 for n in cls.body if isinstance(n, ast.FunctionDef) and n.name == item.split('_')[0]) != 1:
+                    raise TranslationError(REL, cls, 'History.%s must be defined exactly once' % item.split('_')[0])
+                stmts = f(cls, tree, src, items)
+                out.append('')
+                out.append('Definition %s : %s :=\n  [ %s ].' % (item, ty, ';\n    '.join(stmts)))
+            except TranslationError as ex:
+                errors.append({'item': item, 'file': ex.file, 'line': ex.line, 'msg': ex.msg})
+            except (KeyError, IndexError, AttributeError, TypeError) as ex:
+                errors.append({'item': item, 'file': REL, 'line': 0, 'msg': 'translator: %r' % ex})
     return '\n'.join(out) + '\n', items, errors
 
 
